@@ -439,7 +439,8 @@ class ValueGen:
                 return None
             return ['s', rng.choice(cands)]
         if isinstance(t, Bytes):
-            return ['y', rng.choice(['', '00', 'ff00', '68656c6c6f', 'deadbeef' * 3])]
+            # lengths around 57 bytes: where base64 "lines" end
+            return ['y', rng.choice(['', '00', 'ff00', '68656c6c6f', 'deadbeef' * 3, 'ab' * 57, 'c0' * 58, 'e1' * 120])]
         if isinstance(t, Timestamp):
             # representable in its format: strptime(strftime(d)) == d
             pool = []
